@@ -153,6 +153,30 @@ def resave_after_edit(tkey):
                 vs.append(C.viol("edit-after-save-not-written", {"type": tkey, "ctx": ctx, "op": op["k"] + ":" + str(op.get("p", "")),
                                                                   "path": C.first_diff_key(d)},
                                  {"diff": S.diff_text(d)}, case))
+        # the same edit on a module that was itself LOADED (a clone): what the load left behind (e.g. the raw
+        # option bytes) must not override the edit in the next file
+        for pre in ([], [{"k": "ip_optvalues"}] if getattr(mod, "options", None) else []):
+            try:
+                base = deviate.new_module(tkey)
+                for o in pre:
+                    c17.apply_inplace(base, o)
+                loaded = base.clone()
+                if pre:
+                    # switch the options back OFF on the loaded object
+                    for name, o in loaded.options.items():
+                        if o.size == 1:
+                            setattr(loaded, name, False)
+                else:
+                    c17.apply_inplace(loaded, op)
+            except Exception:
+                continue
+            want_l = C.norm_module_for_compare(S.module(loaded, in_project=False))
+            got_l = S.module(loaded.clone(), in_project=False)
+            d = S.diff(want_l, got_l)
+            if d:
+                vs.append(C.viol("edit-of-loaded-module-not-written", {"type": tkey, "op": ("options-off" if pre else op["k"] + ":" + str(op.get("p", ""))),
+                                                                       "path": C.first_diff_key(d)},
+                                 {"diff": S.diff_text(d)}, case))
     return n, vs
 
 
